@@ -68,3 +68,71 @@ impl<'a> DDNNFFold for BddPtr<'a> {
 //%% end
 }
 
+
+// ---- the second memoised fold over a BDD: `bdd_fold` / `bdd_fold_h` (src/repr/bdd.rs), on which the optimisation queries are built ----
+pub type Alg3<T> = spec_fn(VarLabel, T, T) -> T;
+pub open spec fn f3_det<T, F: Fn(VarLabel, T, T) -> T>(f: F, g: Alg3<T>) -> bool {
+    forall|v: VarLabel, a: T, b: T, r: T| #[trigger] f.ensures((v, a, b), r) ==> r == g(v, a, b)
+}
+/// structural definition: a node is g(var, low, high); a complemented edge flips the accumulated complement c; the terminals yield
+/// high_v (true) / low_v (false), exchanged when c is set
+pub open spec fn bff<T>(p: BddPtr, c: bool, g: Alg3<T>, lv: T, hv: T) -> T
+    decreases p
+{
+    match p {
+        BddPtr::Reg(n) => g(n.var, bff(n.low, c, g, lv, hv), bff(n.high, c, g, lv, hv)),
+        BddPtr::Compl(n) => g(n.var, bff(n.low, !c, g, lv, hv), bff(n.high, !c, g, lv, hv)),
+        BddPtr::PtrTrue => if c { lv } else { hv },
+        BddPtr::PtrFalse => if c { hv } else { lv },
+    }
+}
+pub proof fn lemma_bff_neg<T>(p: BddPtr, c: bool, g: Alg3<T>, lv: T, hv: T)
+    ensures bff(p.neg_s(), c, g, lv, hv) == bff(p, !c, g, lv, hv)
+{}
+/// A-scratch-fold for bdd_fold: slot 0 = value of the complemented pointer, slot 1 = value of the regular pointer, for this closure
+/// and these terminal values; assumed at the read, proved at the write
+pub open spec fn memo3_ok<T, F: Fn(VarLabel, T, T) -> T>(p: BddPtr, f: F, lv: T, hv: T, m: DDNNFCache<T>) -> bool {
+    forall|g: Alg3<T>| #[trigger] f3_det(f, g) ==>
+        (m.0 matches Some(v) ==> v == bff(p, !(p is Compl), g, lv, hv))
+        && (m.1 matches Some(v) ==> v == bff(p, p is Compl, g, lv, hv))
+}
+#[verifier::external_body]
+pub fn verif_bfold_scratch<T: Clone + 'static, F: Fn(VarLabel, T, T) -> T>(p: &BddPtr, f: &F, lv: T, hv: T) -> (r: Option<DDNNFCache<T>>)
+    ensures r matches Some(m) ==> memo3_ok(*p, *f, lv, hv, m)
+{ unimplemented!() }
+#[verifier::external_body]
+pub fn verif_bfold_set_scratch<T: 'static, F: Fn(VarLabel, T, T) -> T>(p: &BddPtr, f: &F, lv: T, hv: T, m: DDNNFCache<T>)
+    requires is_node(*p), memo3_ok(*p, *f, lv, hv, m)
+{ unimplemented!() }
+
+impl<'a> BddPtr<'a> {
+//%% extract src/repr/bdd.rs :: impl<'a> BddPtr<'a> :: fn bdd_fold_h
+//%% @pub
+//%% @ret r
+//%% @rewrite 1 /<T: Clone \+ Copy \+ Debug, F: Fn\(VarLabel, T, T\) -> T>/ => <T: Clone + Copy, F: Fn(VarLabel, T, T) -> T>
+//%% @rewrite 1 /let fold_helper = \|prev_low, prev_high\| \{/ => let fold_helper = |prev_low: Option<T>, prev_high: Option<T>| -> (res: T) requires memo3_ok(*self, *f, low_v, high_v, (prev_low, prev_high)) ensures forall|g: Alg3<T>| #[trigger] f3_det(*f, g) ==> res == bff(*self, false, g, low_v, high_v) {
+//%% @rewrite 2 /self\.set_scratch::<\(Option<T>, Option<T>\)>\(/ => verif_bfold_set_scratch::<T, F>(self, f, low_v, high_v, 
+//%% @rewrite 1 /self\.scratch::<\(Option<T>, Option<T>\)>\(\)/ => verif_bfold_scratch::<T, F>(self, f, low_v, high_v)
+//%% @spec
+        requires forall|v: VarLabel, a: T, b: T| #[trigger] f.requires((v, a, b)),
+        ensures forall|g: Alg3<T>| #[trigger] f3_det(*f, g) ==> r == bff(*self, false, g, low_v, high_v),
+        decreases height(*self),
+//%% @entry
+        proof {
+            if is_node(*self) {
+                let n = node_of(*self);
+                lemma_height_neg(n.low); lemma_height_neg(n.high);
+                assert forall|g: Alg3<T>| true implies #[trigger] bff(n.low.neg_s(), false, g, low_v, high_v) == bff(n.low, true, g, low_v, high_v) by { lemma_bff_neg(n.low, false, g, low_v, high_v); }
+                assert forall|g: Alg3<T>| true implies #[trigger] bff(n.high.neg_s(), false, g, low_v, high_v) == bff(n.high, true, g, low_v, high_v) by { lemma_bff_neg(n.high, false, g, low_v, high_v); }
+            }
+        }
+//%% end
+
+//%% extract src/repr/bdd.rs :: impl<'a> BddPtr<'a> :: fn bdd_fold
+//%% @ret r
+//%% @rewrite 1 /<T: Clone \+ Copy \+ Debug, F: Fn\(VarLabel, T, T\) -> T>/ => <T: Clone + Copy, F: Fn(VarLabel, T, T) -> T>
+//%% @spec
+        requires forall|v: VarLabel, a: T, b: T| #[trigger] f.requires((v, a, b)),
+        ensures forall|g: Alg3<T>| #[trigger] f3_det(*f, g) ==> r == bff(*self, false, g, low_v, high_v),
+//%% end
+}
